@@ -284,6 +284,10 @@ def check_prog(prog, builder, seed=0, twin=False, oracle_fn=None, label="", extr
         return out
     rng = random.Random(hash((seed, show(prog))) & 0xFFFFFFF)
     # ---- 1. concrete pre-run (classifies declines; concolic reference) -------------------------------
+    from lang.prog import leaves_of as _leaves_of
+    if any(isinstance(lf[4], tuple) and lf[4][0] == "int" and lf[4][1] <= 0 for lf in _leaves_of(prog).values()):
+        out.update(status="illtyped", detail="an integer leaf with an empty value range (index into an empty dimension)")
+        return out
     cleaves = conc_leaves(prog, rng)
     cenv = _real_env(pred_inputs, False, rng)
     engine.reset()
